@@ -363,6 +363,9 @@ def create_for_folder_subcommand(
                                 missing_asc_mhl_folder.add(new_path)
                         found_file_paths.add(not_found_path)
                 else:
+                    # a new directory without a hash in the recorded format cannot be matched by hashing it as a file
+                    if os.path.isdir(new_path):
+                        continue
                     old_hash_format_for_new_path = hasher.hash_file(
                         os.path.join(root_path, new_path), not_found_path_hash.hash_format
                     )
